@@ -103,8 +103,9 @@ Definition get_argument (f : fmt) (r : aref) (incl : bool) : res arg :=
   | APos i =>
     if (Z.of_nat (length ars) <=? i)%Z then Err NoSuchArgument
     else if (i <? 0)%Z then
-      (* Python negative indexing: outside the model *)
-      Err (Other 3)
+      (* a negative position names no argument, as has_argument says (since fix c06-finished-format; before it Python's
+         negative indexing answered with the last arguments or IndexError) *)
+      Err NoSuchArgument
     else match nth_error ars (Z.to_nat i) with Some (_, a) => Ok a | None => Err NoSuchArgument end
   | AName n => match sget n ars with Some a => Ok a | None => Err NoSuchArgument end
   end.
@@ -244,13 +245,13 @@ Definition has_options (f : fmt) (incl : bool) : bool :=
   if incl then has_options_all f else negb (match f_opts f with [] => true | _ => false end).
 
 Definition qvec1 (f : fmt) (pool : list str) (incl : bool) : sexp :=
-  L [ sList (fun c => sStr (cn_name c)) (get_command_names f incl);
+  L [ sList (fun c => L [sStr (cn_name c); sList sStr (cn_aliases c)]) (get_command_names f incl);
       sB (has_command_names f incl);
       sList (fun n => L [sB (has_command_option f n incl); sRes (fun c => sStr (co_long c)) (get_command_option f n incl)]) pool;
       sList (fun c => sStr (co_long c)) (get_command_options f incl);
       sB (has_command_options f incl);
       sList (fun n => L [sB (has_argument f (AName n) incl); sRes (fun a => sStr (a_name a)) (get_argument f (AName n) incl)]) pool;
-      sList (fun i => L [sB (has_argument f (APos i) incl); sRes (fun a => sStr (a_name a)) (get_argument f (APos i) incl)]) [0; 1; 2; 3; 4; 5]%Z;
+      sList (fun i => L [sB (has_argument f (APos i) incl); sRes (fun a => sStr (a_name a)) (get_argument f (APos i) incl)]) [-2; -1; 0; 1; 2; 3; 4; 5; 6]%Z;
       sList (fun na => L [sStr (fst na); sB (a_required (snd na)); sB (a_multi (snd na))]) (get_arguments f incl);
       L [sB (has_multi f incl); sB (has_optional f incl); sB (has_required f incl); sB (has_arguments f incl)];
       sList (fun n => L [sB (has_option f n incl); sRes (fun o => sStr (o_long o)) (get_option f n incl)]) pool;
